@@ -1,5 +1,5 @@
 """Human-written texts of MANIFEST.json (kept apart from props.py so that check.py does not depend on them)."""
-HOOK_COMMITS = ["8760764", "7a06a9a"]
+HOOK_COMMITS = ["8760764", "7a06a9a", "54b243f"]
 NOTES = ("Technique: machine-checked proof in Lean 4 (core only, no Mathlib import so far) about a hand-written executable model, "
          "tied to /repo on every run by (T1) constants regenerated from the Rust source and (T2) a differential correspondence "
          "check; see DESIGN.md. known_findings.json lists recorded defects; replays/ is written only on violations.")
